@@ -105,6 +105,7 @@ def run(ctx):
         else:
             dspec = gen.gen_data_spec(rng, n_surveys=n_off + 1)
         ps = gen.gen_prior_spec(rng, dspec["unit"], n_offsets=n_off)
+        dspec["array_kind"] = ["plain", "plain", "plain", "bigendian", "readonly", "strided"][i % 6]
         nep = sum(len(s["t"]) for s in dspec["surveys"])
         nrows = nrows_default if nep <= 14 else max(6, nrows_default // 5)
         e_class = "extreme" if rng.random() < 0.08 else "valid"
@@ -238,7 +239,22 @@ def run(ctx):
             try:
                 samples2 = gen.build_samples(rows, units=alt)
                 im2 = bool(rng.random() < 0.5)
-                ll2 = np.asarray(joker.marginal_ln_likelihood(data, samples2, in_memory=im2), dtype=float)
+                if not im2 and i % 3 == 0:
+                    # as files: ONE path, written first in the kernel's units (read once), then overwritten in the alternative
+                    # units - what a pipeline that regenerates "prior_samples.hdf5" does
+                    import os
+                    fpath = os.path.join(ctx.tmpdir, "prior_samples.hdf5")
+                    samples.write(fpath, overwrite=True)
+                    first_read = np.asarray(joker.marginal_ln_likelihood(data, fpath), dtype=float)
+                    if first_read.shape != ll.shape or first_read.tobytes() != ll.tobytes():
+                        ctx.violation("file-path-values-differ", "the library passed as a file name gives other values than as an "
+                                      "object (%d of %d differ)" % (int(np.sum(first_read != ll)) if first_read.shape == ll.shape else -1, nrows), desc)
+                    samples2.write(fpath, overwrite=True)
+                    ll2 = np.asarray(joker.marginal_ln_likelihood(data, fpath), dtype=float)
+                    os.unlink(fpath)
+                    ctx.count("alt_units_through_a_rewritten_file")
+                else:
+                    ll2 = np.asarray(joker.marginal_ln_likelihood(data, samples2, in_memory=im2), dtype=float)
                 lin0 = lins[assignments[0]]
                 for r in range(nrows):
                     if not np.isfinite(ll[r]):
